@@ -16,6 +16,9 @@ def python_evaluate(s: str) -> int:
     try:
         val = eval(s)
         if isinstance(val, int):
+            # An integer must be possible to display (in error messages and descriptions):
+            # raises ValueError if it has more digits than Python converts to a string.
+            str(val)
             return val
         else:
             raise NotAnIntegerException(s)
